@@ -139,7 +139,7 @@ impl Write for SimDest {
             } else {
                 let rel = (self.pos - self.origin) as usize;
                 let end = rel + accept;
-                if end > (1 << 28) {
+                if end > (1 << 28) && self.origin != 0 {
                     panic!("simdest: write of {} bytes at {} is far outside the recorded window", accept, self.pos);
                 }
                 if self.data.len() < end {
